@@ -362,6 +362,9 @@ Section Model.
         (* an unprotected ACK is discarded: nothing vouches for it *)
         if e =? 0 then (s, []) else (mark W prot s e q, [OMark e q; OAck e q body])
     | CAlert level desc =>
+        (* once the handshake is complete an unprotected alert is discarded: no commit, no reply, no
+           close, no error *)
+        if r_estab s && (e =? 0) then (s, []) else
         let s1 := mark W prot s e q in
         let reply := if desc =? 0 then [OAlertOut 1 0] else [] in
         if (level =? 2) || (desc =? 0)
